@@ -15,24 +15,26 @@ def segbytes(n, start):
     return bytes(((start + i * 11) & 0xff) for i in range(n))
 
 
-def config_module(mem, data, table, elems, start, two_instances=False):
+def config_module(mem, data, table, elems, start, two_instances=False, utf8_names=False):
     m = Module(); imports = []; externs = []; cases = []; inputsets = []
+    # names of the imported memory / table / globals: plain ASCII, or with non-ASCII UTF-8 characters (the resolver is asked for these very bytes)
+    EN, GOFF, GMUT, MEM, TAB = ('\u00e9nv', 'g\u20acff', 'gm\u00fct', 'm\u00e9m', 't\u00e4b\u4e2d') if utf8_names else ('env', 'goff', 'gmut', 'mem', 'tab')
 
     def imp(mod, nm, p, r):
         m.import_func(mod, nm, p, '' if r == 'v' else r); imports.append((mod, nm, p, r)); return len(imports) - 1
     mark = imp('env', 'mark', 'i', 'i')
     hstart = imp('env', 'hstart', '', 'v')
     # imported globals: one immutable i32 used as segment offset, one mutable i64 shared with the embedder
-    m.imports.append(('env', 'goff', 3, (I32, 0))); externs.append(('env', 'goff', 'global', ('i', 5)))
-    m.imports.append(('env', 'gmut', 3, (I64, 1))); externs.append(('env', 'gmut', 'global', ('I', 0x1122334455667788)))
+    m.imports.append((EN, GOFF, 3, (I32, 0))); externs.append((EN, GOFF, 'global', ('i', 5)))
+    m.imports.append((EN, GMUT, 3, (I64, 1))); externs.append((EN, GMUT, 'global', ('I', 0x1122334455667788)))
     if mem == 'imported':
-        m.imports.append(('env', 'mem', 2, (1, 2))); externs.append(('env', 'mem', 'memory', (1, 2, False)))
+        m.imports.append((EN, MEM, 2, (1, 2))); externs.append((EN, MEM, 'memory', (1, 2, False)))
     elif mem == 'defined':
         m.mems.append((1, 2))
     elif mem == 'shared':         # a defined SHARED memory: reserved at its maximum, but its size is the declared minimum
         m.mems.append((1, 3, True))
     if table == 'imported':
-        m.imports.append(('env', 'tab', 1, (12, 12))); externs.append(('env', 'tab', 'table', (12, 12)))
+        m.imports.append((EN, TAB, 1, (12, 12))); externs.append((EN, TAB, 'table', (12, 12)))
     elif table == 'defined':
         m.tables.append((12, None))
     # globals (indices 0,1 are the imports)
@@ -130,6 +132,7 @@ def config_module(mem, data, table, elems, start, two_instances=False):
         ops = [(-1, (), 2)]
         if two_instances == 'newchild':
             ops.append((-1, (), 3))
+            ops.append((-1, (), 4))
         for inst in (0, 1):
             for nm in ('gget9', 'gget1', 'ld', 'probe', 'st', 'grow'):
                 if nm in obs:
@@ -140,7 +143,7 @@ def config_module(mem, data, table, elems, start, two_instances=False):
                 if k in setters:
                     ops.append((setters[k][1], (0x100 + inst + k,), inst))
         b.main = 'seq2'; b.ops = ops
-        b.opnames = [('Instantiate B' if inst == 2 else 'B = NewChild(A)') if ci < 0 else '%s:%s(%s)' % ('AB'[inst], cases[ci].desc, ','.join('%#x' % a for a in args)) for ci, args, inst in ops]
+        b.opnames = [('Instantiate B' if inst == 2 else 'B = NewChild(A)' if inst == 3 else 'B = NewChild(NewChild(A))') if ci < 0 else '%s:%s(%s)' % ('AB'[inst], cases[ci].desc, ','.join('%#x' % a for a in args)) for ci, args, inst in ops]
     return b
 
 
@@ -187,6 +190,11 @@ def main(tier):
             b = config_module(mem, data, 'defined', 1, 'defined')
             b.desc += ' -d gnu-ld'
             jobs.append(('config', b, {'cc': 'gcc', 'cflags': ('-O1',), 'w2c2_args': ('-d', 'gnu-ld')}))
+    # imported memory / table / globals whose names contain non-ASCII characters: bound to what the resolver returns for exactly these names
+    for data, table, elems, start in (('one', 'imported', 2, 'defined'), ('globaloff', 'defined', 1, 'none')):
+        b = config_module('imported', data, table, elems, start, utf8_names=True)
+        b.desc += ' (non-ASCII import names)'
+        jobs.append(('config', b, {'cc': 'gcc', 'cflags': ('-O1',)}))
     jobs.append(('config', names_module(), {'cc': 'gcc', 'cflags': ('-O1',)}))
     seqlen = 3 if tier == 'quick' else 5
     for mem, data, table, elems, start in (('defined', 'one', 'defined', 1, 'defined'), ('imported', 'overlap', 'imported', 2, 'defined'),
